@@ -23,13 +23,17 @@ RULE = ('(a) synthetic pairs of force fields: 1-4 residue types, from-blocks of 
         'sorted or shuffled, residue numbers with gaps. (b) charmm peptides (1-6 residues, termini modifications) '
         'through RepairGraph + CanonicalizeModifications and the shipped charmm->martini3001/martini22/elnedyn22 '
         'mappings, checked with invariants only. Non-trivial = >= 2 placements and >= 1 inter-placement input bond. '
-        'distinct = distinct (force fields, molecule) hashes. Also: two-residue (multi-residue) mappings whose pattern and target block span a bonded pair of residues that have no mapping of their own; atoms renamed upstream that are matched on _old_atomname; residues that share their number and differ in the insertion code; a second (alternative) mapping for one residue type on the same atoms.')
+        'distinct = distinct (force fields, molecule) hashes. Also: two-residue (multi-residue) mappings whose pattern and target block span a bonded pair of residues that have no mapping of their own; atoms renamed upstream that are matched on _old_atomname; residues that share their number and differ in the insertion code; a second (alternative) mapping for one residue type on the same atoms; mappings with reference atoms.')
 ASSUMPTIONS = ['when placements overlap or tie on their lowest key the order/attributes are ambiguous: only counts and the '
                'inconsistent-data warning are checked',
                'no demand on attributes other than atomname, resname, resid, _old_resid, graph, mapping_weights',
                'modification mappings are only covered by the invariants of part (b)']
 MIN_HITS = {'quick': 3500, 'thorough': 70000}
 CASE_TIMEOUT = 900
+
+
+def hash_int(obj):
+    return int(harness.h(obj), 16)
 
 
 def res_id(mol, n):
@@ -163,6 +167,7 @@ def gen_case(rnd):
            'tag': rnd.randrange(10 ** 9)}
     if pair:
         out['pair'] = pair
+    out['refs'] = rnd.random() < 0.3
     free = [r for r in sorted(resdefs) if not (pair and r in (pair['x'], pair['y']))]
     if free and rnd.random() < 0.15:
         # a second mapping for one residue type (an alternative representation from an extra mapping directory): it fits wherever the
@@ -205,7 +210,14 @@ def build(case):
                 bb.add_interaction('angles', [x, y, z], ['2', '120', '25'])
         ffb.blocks[name] = bb
         if not (case.get('pair') and name in (case['pair']['x'], case['pair']['y'])):
-            mappings[name] = Mapping(ba, bb, {a: dict(d) for a, d in rd['mp'].items()}, {}, ff_from=ffa, ff_to=ffb, extra=(),
+            # reference atoms: some particles take their kept attributes (chain) from ONE named atom instead of from all constituents
+            refs = {}
+            if case.get('refs'):
+                for b_ in rd['bnames']:
+                    cons_ = sorted(a for a, w in rd['mp'].items() if b_ in w)
+                    if cons_ and (hash_int([name, b_, case['tag']]) % 3 == 0):
+                        refs[b_] = cons_[hash_int([b_, case['tag']]) % len(cons_)]
+            mappings[name] = Mapping(ba, bb, {a: dict(d) for a, d in rd['mp'].items()}, refs, ff_from=ffa, ff_to=ffb, extra=(),
                                      names=(name,))
     if case.get('alt'):
         alt = case['alt']
